@@ -330,13 +330,15 @@ func c15BufferIndependence(c *mon.Ctx, s string) {
 // Or / And / Not by n applications, and the tree is the right-leaning chain of
 // n leaves. Sizes beyond any plausible nesting / depth guard.
 func c15LongChain(c *mon.Ctx, k int) {
-	n := []int{100100, 100100, 131073, 70000}[k]
+	n := []int{100100, 100100, 131073, 70000, 300000, 270000}[k]
 	var text string
 	switch k {
 	case 0:
 		text = "a == 1" + strings.Repeat(" or b != 2", n-1)
-	case 1:
+	case 1, 4:
 		text = strings.Repeat("not ", n) + "a == 1"
+	case 5:
+		text = "a == 1" + strings.Repeat(" or b != 2", n-1)
 	case 2:
 		text = "a == 1" + strings.Repeat(" and a == 1", n-1)
 	default:
@@ -365,10 +367,10 @@ func c15LongChain(c *mon.Ctx, k int) {
 		}
 	}
 	want := n
-	if k == 1 {
+	if k == 1 || k == 4 {
 		want = n%2 + 1 // `not not e` is `e`: the parser folds pairs
 	}
-	if (k == 0 || k == 2) && leaves != want || k == 1 && leaves > 2 {
+	if (k == 0 || k == 2 || k == 5) && leaves != want || (k == 1 || k == 4) && leaves > 2 {
 		c.Violation("C15 long-flat-chain-tree", "the tree of a long flat chain is not the right-leaning chain of its operands", map[string]any{"operands": n, "spine_length": leaves})
 		return
 	}
@@ -379,7 +381,7 @@ func c15LongChain(c *mon.Ctx, k int) {
 	c.Count("long_flat_chains")
 }
 
-const c15NChains = 4
+func c15NChains(tier string) int { return tierN(tier, 5, 6) } // the 270 000-operand or-chain only in the thorough tier
 
 func c15Run(c *mon.Ctx, idx int) {
 	if plan := c15GetPlan(c.Tier); idx >= plan.nSeq+plan.nRnd {
@@ -450,7 +452,7 @@ func init() {
 			"the reference recogniser (internal/refparse) is a faithful reading of grammar.peg as an ordered-choice PEG; it was written by hand from the grammar and shares no code with the generated parser",
 			"inputs whose parse exceeds 2^16 parser steps are skipped and counted (budget_exhausted)",
 		},
-		NumCases: func(tier string) int { p := c15GetPlan(tier); return p.nSeq + p.nRnd + c15NChains },
+		NumCases: func(tier string) int { p := c15GetPlan(tier); return p.nSeq + p.nRnd + c15NChains(tier) },
 		Run:      c15Run,
 		Heavy:    func(tier string, idx int) bool { p := c15GetPlan(tier); return idx >= p.nSeq+p.nRnd },
 		Required: req,
